@@ -128,10 +128,10 @@ def models(extra=None):
     m[r"^Formatter::<'_>::write_fmt$"] = m_write_fmt
     m[r"^<\{closure@.*\} as Fn<.*>>::call$"] = sm.m_opaque("error-from-closure")
     m[r"^Option::<.*>::ok_or_else::<"] = m_ok_or_else
-    m[r"^<Values as RawBatchValues>::batch_values_iter$"] = lambda it, p, c, a: it.call_mir(it.mir.find(r"raw_batch\.rs:60:[^>]*>::batch_values_iter\("), p, a)
+    m[r"^<Values as RawBatchValues>::batch_values_iter$"] = lambda it, p, c, a: it.call_mir(it.mir.find(r"raw_batch\.rs[^>]*>::batch_values_iter\(_1: &Vec<SerializedValues>"), p, a)
     for meth in ("serialize_next", "skip_next", "count"):
         m[r"^<<Values as RawBatchValues>::RawBatchValuesIter<'_> as RawBatchValuesIterator<'_>>::" + meth + "$"] = \
-            (lambda it, p, c, a, meth=meth: it.call_mir(it.mir.find(r"raw_batch\.rs:71:[^>]*>::" + meth + r"\("), p, a))
+            (lambda it, p, c, a, meth=meth: it.call_mir(it.mir.find(r"raw_batch\.rs[^>]*>::" + meth + r"\(_1: (&mut )?std::slice::Iter<'_, SerializedValues>"), p, a))
     m[r"^Vec::<SerializedValues>::iter$"] = im.m_slice_iter
     consts = dict(m.get("__consts__", {})); consts["RangeFull"] = Opaque("RangeFull")
     if extra:
@@ -256,7 +256,7 @@ def simple_requests(ctx, mf, reg, tier):
             for x in lst:
                 body += be_bytes(bv(len(names[x]), 16), 2) + [bv(c, 8) for c in names[x]]
             return Tup([evs], "RegisterV2"), body, []
-        paths, body, ins, tr = run_make(mf, reg, r"register\.rs:43[^>]*>::serialize\(", "Register", build, pre, f"_r{k}")
+        paths, body, ins, tr = run_make(mf, reg, r"register\.rs[^>]*>::serialize\(_1: &RegisterV2", "Register", build, pre, f"_r{k}")
         goals.append(frame_goals(paths, ro.discr("Register"), body, tr)); inputs += ins; n += 1
     ctx.prove("c09_prepare_options_auth_startup_register_frames", pre, z3.And(goals), inputs=inputs,
               functions="SerializedRequest::make::<R> for R in {Prepare, Options, AuthResponse, Startup, RegisterV2}; their serialize impls; "
@@ -286,14 +286,14 @@ def execute_frames(ctx, mf, reg, tier):
             if midlen is not None:
                 body += be_bytes(bv(midlen, 16), 2) + mid
             return req, body + pspec, pin + sid + mid
-        paths, body, ins, tr = run_make(mf, reg, r"execute\.rs:71[^>]*>::serialize\(", "Execute", build, pre, f"_e{k}")
+        paths, body, ins, tr = run_make(mf, reg, r"execute\.rs[^>]*>::serialize\(_1: &ExecuteV2<", "Execute", build, pre, f"_e{k}")
         goals.append(frame_goals(paths, ro.discr("Execute"), body, tr)); inputs += ins
     # legacy Execute { id: Bytes, parameters }
     def build(it):
         sid = [z3.BitVec(f"lid{i}", 8) for i in range(3)]
         params, pspec, pin = q.build_params(it, reg, pre, dict(values=1, cells=["val"], page=True, paging=0, serial=True, ts=True), tag="_el")
         return Tup([slice_of(it, sid), params], "Execute"), be_bytes(bv(3, 16), 2) + sid + pspec, pin + sid
-    paths, body, ins, tr = run_make(mf, reg, r"execute\.rs:31[^>]*>::serialize\(", "Execute", build, pre, "_el")
+    paths, body, ins, tr = run_make(mf, reg, r"execute\.rs[^>]*>::serialize\(_1: &execute::Execute<", "Execute", build, pre, "_el")
     goals.append(frame_goals(paths, ro.discr("Execute"), body, tr)); inputs += ins
     ctx.prove("c09_execute_frames_id_metadata_id_parameters", pre, z3.And(goals), inputs=inputs,
               functions="SerializedRequest::make::<ExecuteV2 | Execute>, ExecuteV2::serialize, Execute::serialize, types::write_short_bytes, QueryParameters::serialize",
@@ -364,7 +364,7 @@ def mismatch_shapes():
 def batch_frames(ctx, mf, reg, tier):
     ro = reg.get("RequestOpcode")
     goals, inputs, pre = [], [], []
-    ser = r"batch\.rs:162[^>]*>::serialize\("
+    ser = r"batch\.rs[^>]*>::serialize\(_1: &frame::request::batch::Batch<"
     for k, (stmts, lists, serial, ts) in enumerate(batch_shapes(tier)):
         def build(it, k=k, stmts=stmts, lists=lists, serial=serial, ts=ts):
             return batch_value(it, reg, k, stmts, lists, serial, ts, pre)
